@@ -27,6 +27,7 @@ type field struct {
 	Key  bool   `json:"key"`
 	Mig  bool   `json:"mig"`  // -:migration (column created by raw DDL)
 	Dflt bool   `json:"dflt"` // the database assigns a default (column DEFAULT 5, tag default:5)
+	Dbd  bool   `json:"dbd"`  // ... through an expression gorm cannot evaluate itself (tag default:(abs(-5)))
 }
 
 type payItem struct {
@@ -75,7 +76,9 @@ func tagOf(f field) string {
 	if f.Mig {
 		parts = append(parts, "-:migration")
 	}
-	if f.Dflt {
+	if f.Dflt && f.Dbd {
+		parts = append(parts, "default:(abs(-5))")
+	} else if f.Dflt {
 		parts = append(parts, "default:5")
 	}
 	return `gorm:"` + strings.Join(parts, ";") + `"`
@@ -117,7 +120,11 @@ func (e *env) setup(m *model) error {
 		case f.Key:
 			cols = append(cols, f.Col+" integer primary key")
 		case f.Dflt:
-			cols = append(cols, f.Col+" integer default 5")
+			if f.Dbd {
+				cols = append(cols, f.Col+" integer default (abs(-5))")
+			} else {
+				cols = append(cols, f.Col+" integer default 5")
+			}
 		default:
 			cols = append(cols, f.Col+" integer")
 		}
@@ -292,6 +299,11 @@ func (e *env) run(m *model, w write) (hx.M, error) {
 		sl := reflect.MakeSlice(reflect.SliceOf(m.typ), 2, 2)
 		sl.Index(1).Set(pv.Elem())
 		sl.Index(1).FieldByName("ID").SetInt(0)
+		for _, f := range m.fields {
+			if f.Dbd { // SQLite has no DEFAULT keyword inside VALUES: both rows agree on a database-expression default
+				sl.Index(0).FieldByName(f.Name).SetInt(pv.Elem().FieldByName(f.Name).Int())
+			}
+		}
 		ptr := reflect.New(sl.Type())
 		ptr.Elem().Set(sl)
 		res = tx.Create(ptr.Interface())
@@ -376,7 +388,7 @@ func nzs(x []string) []string {
 func event(caseNo int, m *model, w write, o hx.M) hx.M {
 	fs := []hx.M{}
 	for _, f := range m.fields {
-		fs = append(fs, hx.M{"name": f.Name, "perm": f.Perm, "auto": f.Auto, "key": f.Key, "dflt": f.Dflt})
+		fs = append(fs, hx.M{"name": f.Name, "perm": f.Perm, "auto": f.Auto, "key": f.Key, "dflt": f.Dflt, "dbd": f.Dbd})
 	}
 	pay := []hx.M{}
 	for _, p := range w.Pay {
@@ -401,7 +413,7 @@ func randModel(r *rand.Rand) *model {
 		fs = append(fs, field{Name: "Upd", Col: "upd", Perm: "rw", Auto: true})
 	}
 	if r.Intn(2) == 0 {
-		fs = append(fs, field{Name: "D1", Col: "d1", Perm: perms[r.Intn(len(perms)-1)], Dflt: true})
+		fs = append(fs, field{Name: "D1", Col: "d1", Perm: perms[r.Intn(len(perms)-1)], Dflt: true, Dbd: r.Intn(2) == 0})
 	}
 	return newModel(fs)
 }
